@@ -7,7 +7,7 @@ def setter(file, *extra):
     return dict(file=file, rules=MUT + list(extra))
 UNIT = dict(
     serves=["C18", "C10"],
-    files={"hcconfig": HC + "config.rs", "caconfig": CA + "config.rs", "calayer": CA + "layer.rs", "evict": CA + "eviction.rs"},
+    files={"hcconfig": HC + "config.rs", "caconfig": CA + "config.rs", "calayer": CA + "layer.rs", "evict": CA + "eviction.rs", "cashared": CA + "shared_layer.rs"},
     default_file="hcconfig",
     rules=[("R1", ["triggers"])],
     extra_params=[],
@@ -34,6 +34,16 @@ UNIT = dict(
         "CacheConfigBuilder::on_hit": setter("caconfig", LISTEN),
         "CacheConfigBuilder::on_miss": setter("caconfig", LISTEN),
         "CacheConfigBuilder::on_eviction": setter("caconfig", LISTEN),
+        "SharedCacheConfigBuilder::new": dict(file="cashared", rules=[("sub", "R6-name", r"String::from\(\"[^\"]*\"\)", "vx_wrap()", 1), ("sub", "R16-phantom", r"_resp: std::marker::PhantomData,", "", 1)]),
+        "SharedCacheConfigBuilder::max_size": setter("cashared"),
+        "SharedCacheConfigBuilder::ttl": setter("cashared"),
+        "SharedCacheConfigBuilder::eviction_policy": setter("cashared"),
+        "SharedCacheConfigBuilder::key_extractor": setter("cashared", WRAP),
+        "SharedCacheConfigBuilder::name": setter("cashared", ("sub", "R6-into", r"\bname\.into\(\)", "name", 1)),
+        "SharedCacheConfigBuilder::on_hit": setter("cashared", LISTEN),
+        "SharedCacheConfigBuilder::on_miss": setter("cashared", LISTEN),
+        "SharedCacheConfigBuilder::on_eviction": setter("cashared", LISTEN),
+        "SharedCacheConfigBuilder::build": dict(file="cashared", rules=[("sub", "expect", r"\.expect\(\"[^\"]*\"\)", ".unwrap()", 1)]),
         "CacheConfigBuilder::build": dict(file="caconfig", rules=[
             ("sub", "expect", r"\.expect\(\"[^\"]*\"\)", ".unwrap()", 1),
             ("sub", "R9-paths", r"crate::CacheLayer", "CacheLayer", -1),
@@ -42,6 +52,6 @@ UNIT = dict(
     types=[
         ("struct", "HealthCheckConfig", "hcconfig", {"drop": ["on_health_change", "on_check_failed", "triggers"]}),
         ("struct", "HealthCheckConfigBuilder", "hcconfig", {"drop": ["on_health_change", "on_check_failed", "triggers"]}),
-        ("struct", "CacheConfig", "caconfig"), ("struct", "CacheConfigBuilder", "caconfig"), ("enum", "EvictionPolicy", "evict"), ("struct", "CacheLayer", "calayer"),
+        ("struct", "CacheConfig", "caconfig"), ("struct", "CacheConfigBuilder", "caconfig"), ("enum", "EvictionPolicy", "evict"), ("struct", "CacheLayer", "calayer"), ("struct", "SharedCacheConfigBuilder", "cashared", {"drop": ["_resp"]}),
     ],
 )
